@@ -3,6 +3,7 @@ package props
 import (
 	"context"
 	"fmt"
+	"runtime"
 	"strconv"
 	"strings"
 	"sync"
@@ -20,7 +21,7 @@ import (
 var WaitLong = 60 * time.Second
 
 // WaitShort is the interval between the two censuses of a dead-state proof.
-var WaitShort = 250 * time.Millisecond
+var WaitShort = rig.DeadInterval
 
 // Session is one client wired to an in-memory endpoint.
 type Session struct {
@@ -120,17 +121,20 @@ func (s *Session) SendMark(mc *rig.MemConn) int64 {
 	return n
 }
 
-// AwaitMark waits for marker n.
+// AwaitMark waits for marker n. The wait ends early (false) when the
+// process is provably in a dead state.
 func (s *Session) AwaitMark(mc *rig.MemConn, n int64) bool {
-	t := time.NewTimer(WaitLong)
-	defer t.Stop()
+	deadline := time.Now().Add(WaitLong)
 	for {
+		t := time.NewTimer(rig.DeadPollEvery)
 		select {
 		case got := <-s.markCh:
+			t.Stop()
 			if got == n {
 				return true
 			}
 		case <-mc.ClosedCh():
+			t.Stop()
 			// drain what may already be there
 			for {
 				select {
@@ -143,7 +147,9 @@ func (s *Session) AwaitMark(mc *rig.MemConn, n int64) bool {
 				}
 			}
 		case <-t.C:
-			return false
+			if time.Now().After(deadline) || rig.ProveDead(rig.DeadInterval).Dead {
+				return false
+			}
 		}
 	}
 }
@@ -165,12 +171,54 @@ func AwaitRegistration(mc *rig.MemConn) bool {
 
 // waitCh waits for ch with the long watchdog.
 func waitCh(ch <-chan struct{}) bool {
-	t := time.NewTimer(WaitLong)
-	defer t.Stop()
-	select {
-	case <-ch:
-		return true
-	case <-t.C:
-		return false
+	deadline := time.Now().Add(WaitLong)
+	for {
+		t := time.NewTimer(rig.DeadPollEvery)
+		select {
+		case <-ch:
+			t.Stop()
+			return true
+		case <-t.C:
+			// a proven dead state ends the wait at once: nothing can ever wake it
+			if time.Now().After(deadline) || rig.ProveDead(rig.DeadInterval).Dead {
+				return false
+			}
+		}
+	}
+}
+
+// CloseWatched calls Close on a goroutine of its own and waits for it with
+// the long watchdog; false means Close has not returned.
+func CloseWatched(conn *client.Conn) bool {
+	done := make(chan struct{})
+	go func() {
+		conn.Close()
+		close(done)
+	}()
+	return waitCh(done)
+}
+
+// waitUntil polls cond (cheaply at first) until it holds or the long watchdog expires.
+func waitUntil(cond func() bool) bool {
+	dl := time.Now().Add(WaitLong)
+	nextProof := time.Now().Add(rig.DeadPollEvery)
+	for i := 0; ; i++ {
+		if cond() {
+			return true
+		}
+		if time.Now().After(dl) {
+			return false
+		}
+		if time.Now().After(nextProof) {
+			if rig.ProveDead(rig.DeadInterval).Dead {
+				return cond()
+			}
+			nextProof = time.Now().Add(rig.DeadPollEvery)
+		}
+		if i < 200 {
+			runtime.Gosched()
+		} else {
+			time.Sleep(50 * time.Microsecond)
+		}
 	}
 }
